@@ -140,7 +140,7 @@ func derefPtr(t reflect.Type, v reflect.Value) (reflect.Type, reflect.Value, ref
 	// loop to handle **type instances
 	var k reflect.Kind
 	for {
-		if isPtr(t) {
+		if isPtr(t) && v.IsValid() && !v.IsNil() {
 			t = t.Elem()
 			v = v.Elem()
 			continue
